@@ -34,6 +34,7 @@ type lty struct {
 	kind   string // int, bool, float, list, struct, error, other
 	elem   *lty
 	zero   string
+	str    bool // a Go string (rendered as its UTF-8 bytes)
 }
 
 type fnSig struct {
@@ -42,6 +43,8 @@ type fnSig struct {
 	results []*lty // without a trailing error
 	hasErr  bool
 	params  []*lty
+	extra   string       // extra leading arguments at every call (" uc": the unicode tables)
+	mutates map[int]bool // parameter positions whose backing array the function writes (trans_runes.go)
 }
 
 type Translator struct {
@@ -54,6 +57,9 @@ type Translator struct {
 	out     []string
 	cur     *fnCtx
 	globals map[string]*ast.CompositeLit
+	emitted map[string]bool // package-level literals emitted as Lean defs (trans_runes.go)
+	runeSubset bool         // set by c18s.go
+	gprefix    string       // prefix of the Lean names of package-level literals
 }
 
 type fnCtx struct {
@@ -65,6 +71,7 @@ type fnCtx struct {
 	loopN   int
 	aux     []string
 	tmpN    int
+	opt     FuncOpt
 }
 
 type fakeImporter struct{ std types.Importer }
@@ -135,6 +142,10 @@ func (t *Translator) ltype(ty types.Type, n ast.Node) *lty {
 			return &lty{lean: "BitVec 64", width: 64, kind: "int", zero: "0#64"}
 		case types.Uint8:
 			return &lty{lean: "BitVec 8", width: 8, kind: "int", zero: "0#8"}
+		case types.Int32, types.UntypedRune:
+			return &lty{lean: "BitVec 32", width: 32, signed: true, kind: "int", zero: "0#32"}
+		case types.String, types.UntypedString:
+			return &lty{lean: "List (BitVec 8)", kind: "list", elem: &lty{lean: "BitVec 8", width: 8, kind: "int", zero: "0#8"}, zero: "[]", str: true}
 		case types.Bool, types.UntypedBool:
 			return &lty{lean: "Bool", kind: "bool", zero: "false"}
 		case types.Float64, types.UntypedFloat:
@@ -176,6 +187,8 @@ func (t *Translator) supported(ty types.Type) bool {
 		switch u.Kind() {
 		case types.Int64, types.Int, types.Uint64, types.Uint, types.Uint8, types.Bool, types.Float64:
 			return true
+		case types.Int32, types.String:
+			return t.runeSubset
 		}
 		return false
 	case *types.Slice:
@@ -245,6 +258,9 @@ func (t *Translator) expr(e ast.Expr) ex {
 		if b, ok := tv.Type.Underlying().(*types.Basic); ok && b.Info()&(types.IsInteger|types.IsBoolean) != 0 {
 			return ex{s: lit(tv.Value, t.ltype(tv.Type, e), t, e)}
 		}
+	}
+	if r, ok := t.exprRunes(e); ok {
+		return r
 	}
 	switch x := e.(type) {
 	case *ast.ParenExpr:
@@ -355,12 +371,19 @@ func (t *Translator) widen(s string, e ast.Expr) string {
 	if ty.width == 8 {
 		return "(" + s + ".setWidth 64)"
 	}
+	if ty.width == 32 {
+		return "(" + s + ".signExtend 64)"
+	}
 	return s
 }
 
 func leanIdent(n string) string {
 	switch n {
-	case "in", "at", "do", "then", "else", "from", "to", "end", "fun", "let", "have", "show", "open", "by", "with", "max", "min":
+	case "in", "at", "do", "then", "else", "from", "to", "end", "fun", "let", "have", "show", "open", "by", "with", "max", "min",
+		"prefix", "infix", "infixl", "infixr", "postfix", "notation", "local", "section", "namespace", "where", "instance", "class",
+		"structure", "theorem", "def", "match", "if", "Type", "Prop", "Sort", "universe", "variable", "macro", "syntax", "deriving",
+		"mutual", "private", "protected", "noncomputable", "partial", "unsafe", "abbrev", "axiom", "example", "inductive", "extends",
+		"using", "calc", "suffices", "obtain", "some", "none", "pure", "bind", "fuel", "rest_", "xs_", "v_":
 		return n + "_"
 	case "_":
 		return "_"
@@ -482,6 +505,12 @@ func (t *Translator) call(x *ast.CallExpr) ex {
 		to := t.ltype(tv.Type, x)
 		a := t.expr(x.Args[0])
 		from := t.typeOf(x.Args[0])
+		if to.kind == "list" && from.kind == "list" && to.elem.width == 32 && from.str {
+			return ex{a.pre, "(GoStd.runes " + a.s + ")"} // []rune(s)
+		}
+		if to.kind == "list" && from.kind == "list" && to.elem.width != from.elem.width {
+			t.refuse(x, "conversion %s", t.pkg.Src(x))
+		}
 		if to.kind == "list" || from.kind == "list" {
 			return a
 		}
@@ -500,6 +529,9 @@ func (t *Translator) call(x *ast.CallExpr) ex {
 		t.refuse(x, "conversion %s", t.pkg.Src(x))
 	}
 	name := t.calleeName(x.Fun)
+	if r, ok := t.callRunes(name, x); ok {
+		return r
+	}
 	var args []ex
 	for i, a := range x.Args {
 		if i == 0 && name == "make" {
@@ -569,7 +601,7 @@ func (t *Translator) call(x *ast.CallExpr) ex {
 	if sig == nil {
 		t.refuse(x, "call of %s: callee is not translated", t.pkg.Src(x.Fun))
 	}
-	app := sig.lean
+	app := sig.lean + sig.extra
 	if recv != "" {
 		app += " " + recv
 	}
@@ -622,6 +654,7 @@ type term struct {
 	post  ast.Stmt
 	brk   []string // state vars for break
 	inLoop bool
+	retLoop bool // the loop body contains `return`: the loop yields (Option result × state) (trans_runes.go)
 }
 
 func tuple(vs []string) string {
@@ -684,8 +717,10 @@ func containsJump(n ast.Node) bool {
 		case *ast.BranchStmt:
 			found = true
 		case *ast.ForStmt, *ast.RangeStmt:
-			_ = s
-			return false // break/continue inside a nested loop belong to it (returns are refused there)
+			if hasReturn(s) { // trans_runes.go: a returning loop leaves the enclosing branch as well
+				found = true
+			}
+			return false // break/continue inside a nested loop belong to it
 		case *ast.CallExpr:
 			if id, ok := s.Fun.(*ast.Ident); ok && id.Name == "panic" {
 				found = true
@@ -784,6 +819,13 @@ func assigned(stmts []ast.Stmt, sc *scope) []string {
 						}
 					}
 				}
+			case *ast.CallExpr:
+				// trans_runes.go: copy(x[a:b], …) and utf8.EncodeRune(x[a:], r) rebind x
+				if writesFirstArg(s) && len(s.Args) > 0 {
+					if n := rootIdent(s.Args[0]); n != "" && !declared[n] {
+						set[n] = true
+					}
+				}
 			}
 			return true
 		})
@@ -864,6 +906,9 @@ func (t *Translator) stmts(list []ast.Stmt, sc *scope, tm term, d int) []string 
 				emit("Go.Res.crash")
 				return out
 			}
+			if t.exprStmtRunes(c, emit, emitPre) {
+				continue
+			}
 			if id, ok := c.Fun.(*ast.Ident); ok && id.Name == "copy" {
 				dst, ok := c.Args[0].(*ast.Ident)
 				if !ok {
@@ -877,7 +922,11 @@ func (t *Translator) stmts(list []ast.Stmt, sc *scope, tm term, d int) []string 
 			t.refuse(s, "call statement %s", t.pkg.Src(s))
 		case *ast.ReturnStmt:
 			if tm.inLoop {
-				t.refuse(s, "return inside a loop")
+				if !tm.retLoop {
+					t.refuse(s, "return inside a loop")
+				}
+				out = append(out, t.retInLoop(s, tm, d)...)
+				return out
 			}
 			out = append(out, t.ret(s, sc, d)...)
 			return out
@@ -886,6 +935,10 @@ func (t *Translator) stmts(list []ast.Stmt, sc *scope, tm term, d int) []string 
 				t.refuse(s, "branch statement")
 			}
 			if s.Tok == token.BREAK {
+				if tm.retLoop {
+					emit("pure " + retTuple("none", tm.brk))
+					return out
+				}
 				emit(t.pureWrap(tuple(tm.brk)))
 				return out
 			}
@@ -913,7 +966,7 @@ func (t *Translator) stmts(list []ast.Stmt, sc *scope, tm term, d int) []string 
 			if !thenJ && !elseJ {
 				// merge assigned variables
 				av := assigned(append(append([]ast.Stmt{}, s.Body.List...), elseList...), sc)
-				ytm := term{kind: "yield", vars: av, inLoop: tm.inLoop, brk: tm.brk}
+				ytm := term{kind: "yield", vars: av, inLoop: tm.inLoop, brk: tm.brk, retLoop: tm.retLoop}
 				thenL := t.stmts(s.Body.List, sc.clone(), ytm, d+2)
 				elseL := t.stmts(elseList, sc.clone(), ytm, d+2)
 				if len(av) == 0 && !t.cur.monadic {
@@ -967,9 +1020,25 @@ func (t *Translator) stmts(list []ast.Stmt, sc *scope, tm term, d int) []string 
 			out = append(out, t.stmts(append(append([]ast.Stmt{}, elseList...), rest...), sc.clone(), tm, d+1)...)
 			return out
 		case *ast.ForStmt:
+			if hasReturn(s.Body) {
+				out = append(out, t.retLoopStmt(s, rest, sc, tm, d)...)
+				return out
+			}
 			out = append(out, t.forLoop(s, sc, d)...)
 		case *ast.RangeStmt:
+			if hasReturn(s.Body) || rangeNeedsRunes(s) {
+				if done, lines := t.rangeLoopRunes(s, rest, sc, tm, d); done {
+					out = append(out, lines...)
+					return out
+				} else {
+					out = append(out, lines...)
+					continue
+				}
+			}
 			out = append(out, t.rangeLoop(s, sc, d)...)
+		case *ast.SwitchStmt:
+			out = append(out, t.stmts(append(t.desugarSwitch(s), rest...), sc, tm, d)...)
+			return out
 		case *ast.BlockStmt:
 			t.refuse(s, "nested block")
 		default:
@@ -1101,6 +1170,13 @@ func (t *Translator) assign(s *ast.AssignStmt, sc *scope, emit func(string), emi
 		}
 		// rebuild the application through call(), then patch the final bind
 		e := t.call(c)
+		if !sig.monadic {
+			for _, p := range e.pre {
+				emit(p)
+			}
+			emit(fmt.Sprintf("let %s := %s", tupleS(lhs), e.s))
+			return
+		}
 		last := e.pre[len(e.pre)-1]
 		for _, p := range e.pre[:len(e.pre)-1] {
 			emit(p)
@@ -1364,6 +1440,9 @@ type FuncOpt struct {
 	StopBefore string
 	Yield      []string
 	Register   []string // additional Go names under which callers refer to it (e.g. "numeric.F")
+	Unicode    bool     // the function (or a callee) consults Go's unicode tables: extra first parameter `uc : GoStd.Unicode`
+	Runes      bool     // rune-slice subset (trans_runes.go): alpha-rename shadowing locals, alias discipline check
+	AliasOK    string   // reviewed waiver of the alias discipline check (reason), recorded in the summary
 }
 
 func (t *Translator) Func(goName string, o FuncOpt) {
@@ -1380,6 +1459,14 @@ func (t *Translator) Func(goName string, o FuncOpt) {
 	sig := &fnSig{lean: o.LeanName}
 	sc := &scope{ty: map[string]*lty{}}
 	var params []string
+	if o.Runes {
+		t.prepareRunes(goName, fd, o, sig)
+	}
+	if o.Unicode {
+		sig.extra = " uc"
+		sc.add("uc", &lty{lean: "GoStd.Unicode", kind: "other", zero: "default"})
+		params = append(params, "(uc : GoStd.Unicode)")
+	}
 	addParam := func(name string, ty ast.Expr) {
 		if o.StopBefore != "" && !t.supported(t.info.Types[ty].Type) {
 			return // a prefix translation ignores parameters of untranslatable types (using one refuses later)
@@ -1401,7 +1488,7 @@ func (t *Translator) Func(goName string, o FuncOpt) {
 			addParam(n.Name, f.Type)
 		}
 	}
-	fc := &fnCtx{name: goName, sig: sig}
+	fc := &fnCtx{name: goName, sig: sig, opt: o}
 	var resTys []string
 	if fd.Type.Results != nil && o.StopBefore == "" {
 		for _, f := range fd.Type.Results.List {
